@@ -1217,7 +1217,6 @@ def pointwise_cm(
     cm[..., 1, 1] = neg & ton
 
     # Restore shapes
-    cm = np.reshape(cm, (-1, *threshold_shape, 2, 2))
     cm = np.reshape(cm, (*scores_shape, *threshold_shape, 2, 2))
 
     return cm
